@@ -478,7 +478,11 @@ static void doDefine(const vj::Value& cfg, const vj::Value& act) {
             }
             h.addArgument(spec, d, "D" + std::to_string(i + 1));
             res.push_back("ok");
-         } catch (const std::exception&) { res.push_back("refused"); }   // the handler owns/deletes d on success only; leak on refusal is accepted (leak detection off)
+         } catch (const std::exception&) {
+            res.push_back("refused");   // leak of d on refusal is accepted (leak detection off)
+            // a refusal inside a group leaves the member handler in an unspecified state: stop there
+            if (grouped) { while (res.size() < args.size()) res.push_back("skipped"); break; }
+         }
       }
       b.reset();
    }
